@@ -265,3 +265,55 @@ let show_fouts (l : fout list) : string =
     | FStuck -> Buffer.add_string b "STUCK"
     | FMark j -> Buffer.add_string b ("(m " ^ string_of_int (int_of_nat j) ^ ")")) l;
   Buffer.contents b
+
+(* ---- timed operators / scheduler ---- *)
+let rec pos_of_int' n = pos_of_int n
+let n_of_int n = if n = 0 then N0 else Npos (pos_of_int n)
+let int_of_n = function N0 -> 0 | Npos p -> int_of_pos p
+let narg_n s = n_of_int (int_of s)
+let opt_n s = match s with Atom "none" -> None | _ -> Some (narg_n s)
+
+let top_of (s : sexp) : top =
+  let a = args s in
+  match head s with
+  | "delay" -> TDelay (narg_n (List.hd a))
+  | "observe_on" -> TObserveOn
+  | "delay_subscription" -> TDelaySubscription (narg_n (List.hd a))
+  | "subscribe_on" -> TSubscribeOn
+  | "debounce" -> TDebounce (narg_n (List.hd a))
+  | "throttle" -> TThrottle (narg_n (List.nth a 0),
+                             (match atom (List.nth a 1) with "leading" -> ELeading | "tailing" -> ETailing | _ -> EAll))
+  | "buffer_with_time" -> TBufferTime (narg_n (List.hd a))
+  | "buffer_with_count_and_time" -> TBufferCountTime (narg (List.nth a 0), narg_n (List.nth a 1))
+  | "interval" -> TInterval (narg_n (List.hd a))
+  | "interval_at" -> TIntervalAt (narg_n (List.nth a 0), narg_n (List.nth a 1))
+  | "timer" -> TTimer (val_of (List.nth a 0), narg_n (List.nth a 1))
+  | "raw" -> TRaw
+  | h -> failwith ("bad timed op " ^ h)
+
+let tlab_of (s : sexp) : tlab =
+  let a = args s in
+  match head s with
+  | "src" -> LSrc (ev_of (List.hd a))
+  | "run" -> LRun (narg (List.hd a))
+  | "adv" -> LAdv (narg_n (List.hd a))
+  | "unsub" -> LUnsub
+  | "closed" -> LClosed
+  | "finish" -> LFinish
+  | "spawn_once" -> LSpawnOnce (opt_n (List.hd a))
+  | "spawn_repeat" -> LSpawnRepeat (narg_n (List.nth a 0), opt_n (List.nth a 1), narg (List.nth a 2))
+  | "spawn_sub" -> LSpawnSub (opt_n (List.hd a))
+  | "cancel" -> LCancel (narg (List.hd a))
+  | "handle_closed" -> LHandleClosed (narg (List.hd a))
+  | h -> failwith ("bad timed label " ^ h)
+
+let show_touts (l : tout list) : string =
+  let b = Buffer.create 64 in
+  List.iteri (fun i o -> if i > 0 then Buffer.add_char b ' ';
+    match o with
+    | TOut (at, e) -> Buffer.add_string b ("(t " ^ string_of_int (int_of_n at) ^ " "); show_ev b e; Buffer.add_char b ')'
+    | TRet x -> Buffer.add_string b (if x then "(rb #t)" else "(rb #f)")
+    | TRan (t, seq, at) -> Buffer.add_string b (Printf.sprintf "(ran %d %d %d)" (int_of_nat t) (int_of_nat seq) (int_of_n at))
+    | TInnerUnsub t -> Buffer.add_string b (Printf.sprintf "(iu %d)" (int_of_nat t))
+    | TMark j -> Buffer.add_string b (Printf.sprintf "(m %d)" (int_of_nat j))) l;
+  Buffer.contents b
